@@ -1,11 +1,88 @@
-"""Bounded stand-ins and concrete counterexample search on the real crates (replay/)."""
-import os, subprocess, json
+"""Bounded stand-ins and concrete counterexample search on the real crates (replay/: path dependency on /repo/graph).
+NOT a proof: the bound is recorded in the evidence and the result is never added to `discharged`."""
+import os, subprocess, json, shutil, time
+
+def _build(here, repo):
+    rdir = os.path.join(here, 'replay')
+    try:
+        shutil.copy(os.path.join(repo, 'Cargo.lock'), os.path.join(rdir, 'Cargo.lock'))
+    except OSError:
+        pass
+    env = dict(os.environ, CARGO_NET_OFFLINE='true', CARGO_TARGET_DIR=os.path.join(here, '.build', 'replay-target'))
+    p = subprocess.run(['cargo', 'build', '--release', '--offline', '-q'], cwd=rdir, env=env, capture_output=True, text=True, timeout=1200)
+    if p.returncode != 0:
+        return None, (p.stderr or p.stdout)[-800:]
+    return os.path.join(here, '.build', 'replay-target', 'release', 'pie_replay'), ''
+
+def _run(binp, args, timeout=1800):
+    p = subprocess.run([binp] + args, capture_output=True, text=True, timeout=timeout)
+    recs = []
+    for l in p.stdout.split('\n'):
+        l = l.strip()
+        if l.startswith('{'):
+            try: recs.append(json.loads(l))
+            except Exception: pass
+    return p.returncode, recs, p.stderr[-400:]
+
+GRAPH_BOUNDS = {'quick': ['graph', '--k', '3', '--l', '4', '--random', '4000', '--len', '14'],
+                'thorough': ['graph', '--k', '4', '--l', '4', '--random', '60000', '--len', '18']}
+
+# graph-level obligations that other properties rest on (a concrete failure of one of them is a failure of that property's clause)
+ALSO = {
+    'C07': ('C10.add_edge.cycle_rejected_exactly_when_dst_reaches_src', 'C10.bounded.every_edge_increases_rank', 'C11.contains_transitive_edge.exact'),
+    'C05': ('C11.contains_transitive_edge.exact',),
+    'C06': ('C11.contains_transitive_edge.exact',),
+    'C02': ('C11.bounded.get_outgoing_edges_in_insertion_order_with_data', 'C11.bounded.get_outgoing_edge_data', 'C11.add_edge.existing_edge_reported'),
+    'C08': ('C11.remove_outgoing.returns_data_in_order', 'C11.bounded.get_outgoing_edge_data', 'C11.bounded.get_outgoing_edges_in_insertion_order_with_data'),
+    'C04': ('C11.topo_cmp.is_rank_order', 'C10.bounded.every_edge_increases_rank', 'C11.contains_transitive_edge.exact'),
+    'C16': ('C10.bounded.ranks_bijection_onto_1_n', 'C11.bounded.get_outgoing_edges_in_insertion_order_with_data', 'C11.bounded.get_incoming_edges_in_insertion_order_with_data'),
+}
 
 def run(here, repo, pid, names, tier, seed):
-    return {'report': None, 'undecided': [], 'violations': []}
+    """names: ['graph'] -> bounded enumeration of the graph crate; violations whose property == pid are reported."""
+    out = {'report': {}, 'undecided': [], 'violations': []}
+    binp, err = _build(here, repo)
+    if binp is None:
+        out['undecided'].append('bounded stand-in does not build against the current tree: ' + err); return out
+    for name in names:
+        if name != 'graph': continue
+        t0 = time.time()
+        args = GRAPH_BOUNDS['thorough' if tier == 'thorough' else 'quick'] + ['--seed', str(seed or 1)]
+        try:
+            rc, recs, err = _run(binp, args)
+        except subprocess.TimeoutExpired:
+            out['undecided'].append('bounded stand-in timed out'); continue
+        summ = [r for r in recs if r.get('summary')]
+        vio = [r for r in recs if r.get('violation')]
+        out['report'][name] = {'label': 'bounded (not a proof)', 'bound': ' '.join(args), 'summary': summ[0] if summ else None,
+                               'violations_found': len(vio), 'wall_s': round(time.time() - t0, 1),
+                               'stands_in_for': 'R6 adapter-chain getters (get_incoming/outgoing_*, iter_unsorted, descendants constructor) and cross-check of the contracts'}
+        if not summ and not vio:
+            out['undecided'].append('bounded stand-in produced no summary: ' + err)
+        for r in vio:
+            if r['property'] == pid or r['obligation'] in ALSO.get(pid, ()):
+                out['violations'].append({'obligation': r['obligation'], 'unit': 'bounded:graph', 'backend': 'bounded enumeration of the real crate',
+                                          'diagnostics': [{'message': r['what'], 'at': [json.dumps(r['ops'])], 'gen_lines': []}],
+                                          'concrete_input': {'engine': 'graph', 'ops': r['ops'], 'what': r['what']}, 'site': json.dumps(r['ops'])})
+    return out
 
 def search_counterexample(here, repo, pid, obligation):
-    return None
+    """When a Verus obligation of the graph unit fails: look for a concrete failing operation sequence on the real crate."""
+    if not (obligation.split('.')[0] in ('C10', 'C11', 'C07', 'C16', 'C02')): return None
+    binp, err = _build(here, repo)
+    if binp is None: return None
+    try:
+        rc, recs, err = _run(binp, GRAPH_BOUNDS['quick'] + ['--seed', '1'], timeout=900)
+    except subprocess.TimeoutExpired:
+        return None
+    vio = [r for r in recs if r.get('violation')]
+    if not vio: return None
+    r = vio[0]
+    return {'engine': 'graph', 'ops': r['ops'], 'what': r['what'], 'found_for': r['obligation']}
 
 def replay_case(here, repo, pid, case):
-    return True, 'no replay engine for this case'
+    if case.get('engine') != 'graph': return True, 'no replay engine for this case'
+    binp, err = _build(here, repo)
+    if binp is None: return True, 'replay binary does not build: ' + err
+    rc, recs, err = _run(binp, ['replay', json.dumps(case['ops'], separators=(',', ':'))])
+    return rc == 0, json.dumps(recs)
